@@ -107,6 +107,22 @@ class CFG:
             return [], [(n.id, ("F", e))]
         return [(n.id, ("T", e))], [(n.id, ("F", e))]
 
+    def _cond_full(self, e, preds):
+        """_cond plus, for compound tests, a join node per outcome that carries
+        the truth of the whole expression (the decomposition alone loses
+        `a or b` on the true side and `a and b` on the false side)."""
+        t, f = self._cond(e, preds)
+        if isinstance(e, (ast.BoolOp, ast.UnaryOp)):
+            if t:
+                jn = self._new("join", e)
+                self._connect(t, jn.id)
+                t = [(jn.id, ("T", e))]
+            if f:
+                jn = self._new("join", e)
+                self._connect(f, jn.id)
+                f = [(jn.id, ("F", e))]
+        return t, f
+
     def _seq(self, stmts, preds):
         for st in stmts:
             preds = self._stmt(st, preds)
@@ -114,14 +130,14 @@ class CFG:
 
     def _stmt(self, st, preds):
         if isinstance(st, ast.If):
-            t, f = self._cond(st.test, preds)
+            t, f = self._cond_full(st.test, preds)
             out = self._seq(st.body, t)
             out2 = self._seq(st.orelse, f) if st.orelse else f
             return out + out2
         if isinstance(st, ast.While):
             head = self._new("loophead", st)
             self._connect(preds, head.id)
-            t, f = self._cond(st.test, [(head.id, None)])
+            t, f = self._cond_full(st.test, [(head.id, None)])
             brk = []
             self._loops.append((head.id, brk))
             body_out = self._seq(st.body, t)
@@ -207,7 +223,7 @@ class CFG:
         """CFG node whose AST contains `target` (innermost)."""
         best = None
         for n in self.nodes:
-            if n.ast is None or n.kind in ("loophead",):
+            if n.ast is None or n.kind in ("loophead", "join"):
                 continue
             root = n.ast
             if n.kind == "for":
